@@ -72,12 +72,51 @@ def _variants(tree, depth, rng, full):
     return out
 
 
-def _cases(tree, depth, rng, full, descs=None, aspects=ASPECTS, scale=1):
-    for declared, tsh, ish in _variants(tree, depth, rng, full):
+def _cases(tree, depth, rng, full, descs=None, aspects=ASPECTS, scale=1, hfmt=None, dflt=0, cum=None,
+           variants=None):
+    """hfmt: format of the tensor's own ranks ("C"/"U" per rank, None = all "C"); dflt: the tensor's
+    default (an integer like the leaves, divided by `scale` when built); cum: the codec's
+    cumulative_payloads flags (None = all True)"""
+    vs = _variants(tree, depth, rng, full)
+    if variants is not None:
+        vs = vs[:variants]
+    for declared, tsh, ish in vs:
         for desc in (descs or itertools.product("UCB", repeat=depth)):
             for asp in aspects:
-                yield {"prop": PROP, "d": depth, "t": tree, "fmts": "".join(desc), "tshape": tsh,
-                       "declared": declared, "ish": ish, "scale": scale, "aspect": asp}
+                c = {"prop": PROP, "d": depth, "t": tree, "fmts": "".join(desc), "tshape": tsh,
+                     "declared": declared, "ish": ish, "scale": scale, "aspect": asp}
+                if hfmt:
+                    c["hfmt"] = hfmt
+                if dflt:
+                    c["dflt"] = dflt
+                if cum is not None:
+                    c["cum"] = cum
+                yield c
+
+
+WIDE = [0, 9, 10, 31, 32, 33, 63, 64, 100]
+
+
+def _wide_cases(rng, n):
+    """multi-digit coordinates and extents around the 32-bit mask word (31/32/33/63/64/65/101)"""
+    for i in range(n):
+        d = 1 if i % 3 else 2
+        cs = sorted(rng.sample(WIDE, rng.choice([1, 2, 3, 5, 7])))
+        if d == 1:
+            tree = [[c, rng.choice([1, 2, -3])] for c in cs]
+        else:
+            tree = [[c, [[c2, rng.choice([1, 2])] for c2 in sorted(rng.sample(WIDE, rng.choice([1, 3, 6])))]]
+                    for c in cs[:3]]
+        est = est_shape(tree, d)
+        for declared, tsh in ((False, est), (True, [((s + 31) // 32) * 32 + rng.choice([0, 0, 1]) for s in est])):
+            ish = None if rng.random() < 0.6 else [s + rng.choice([0, 1, 31]) for s in tsh]
+            for desc in itertools.product("UCB", repeat=d):
+                for asp in ("decode", "size", "lookup", "scan"):
+                    yield {"prop": PROP, "d": d, "t": tree, "fmts": "".join(desc), "tshape": tsh,
+                           "declared": declared, "ish": ish, "scale": 1, "aspect": asp}
+
+
+ATTRS = [("U", 0), ("C", 7), ("U", 7), ("U", 2)]
 
 
 def leaf_fibers(n, states):
@@ -94,33 +133,50 @@ def gen(seed, tier):
     rng = random.Random(seed)
     full = tier != "quick"
     # depth 1: every fiber over 3 coordinates x {absent, explicit 0, 1, 2}
-    for f in leaf_fibers(3, [0, 1, 2]):
+    for i, f in enumerate(leaf_fibers(3, [0, 1, 2])):
         yield from _cases(f, 1, rng, True)
         yield from _cases(f, 1, rng, False, scale=4)
+        # the tensor's own rank in format "U" / a non-zero (int, float) default
+        h, df = ATTRS[i % 4]
+        yield from _cases(f, 1, rng, False, hfmt=h, dflt=df, scale=(4 if df == 2 else 1), variants=2,
+                          cum=[i % 2 == 0])
     # depth 2: 2 x 2 coordinates
     l2 = leaf_fibers(2, [0, 5])
+    A2 = [(h, df) for h in ("UC", "CU", "UU", "CC") for df in (0, 7, 2) if (h, df) != ("CC", 0)]
     for i, t in enumerate(trees2(2, l2)):
         yield from _cases(t, 2, rng, full, scale=(1 if i % 2 == 0 else 4))
+        h, df = A2[i % len(A2)]
+        yield from _cases(t, 2, rng, False, hfmt=h, dflt=df, scale=(4 if df == 2 else 1), variants=2,
+                          cum=[i % 2 == 0, i % 3 == 0])
     # depth 3: 2 x 2 x 2 coordinates
     l1 = leaf_fibers(2, [7])
     mids = list(trees2(2, l1))
     tops = list(trees2(2, mids))
     if not full:
-        tops = rng.sample(tops, 40)
+        tops = rng.sample(tops, 30)
     for i, t in enumerate(tops):
-        for c in _cases(t, 3, rng, False, scale=(1 if i % 2 == 0 else 4)):
-            yield c
+        if i % 2 == 0:
+            yield from _cases(t, 3, rng, False, scale=(1 if i % 4 == 0 else 4))
+        else:
+            yield from _cases(t, 3, rng, False, hfmt="".join(rng.choice("CU") for _ in range(3)),
+                              dflt=rng.choice([0, 7]), variants=2)
+    # multi-digit coordinates, extents around the mask word size
+    yield from _wide_cases(rng, 12 if tier == "quick" else 400)
     # random
-    nrand = 250 if tier == "quick" else 12000
+    nrand = 220 if tier == "quick" else 10000
     for i in range(nrand):
-        d = rng.choice([1, 2, 2, 3, 3])
-        n = rng.choice([2, 3, 4, 5])
-        tree = H.gen_tree(rng, d, n, pool=(1, 2, -3, 9), dflt=0)
+        d = rng.choice([1, 2, 2, 3, 3, 4])
+        n = rng.choice([2, 3, 4, 5]) if d < 4 else rng.choice([2, 3])
+        scale = rng.choice([1, 1, 4])
+        dflt = rng.choice([0, 0, 7, -3]) if scale == 1 else rng.choice([0, 2, 28])
+        tree = H.gen_tree(rng, d, n, pool=(1, 2, -3, 9, 0, 7), dflt=dflt)
+        hfmt = "".join(rng.choice("CCU") for _ in range(d))
         descs = None
-        if d == 3:
-            descs = [tuple(rng.choice("UCB") for _ in range(3)) for _ in range(6 if full else 4)]
+        if d >= 3:
+            descs = [tuple(rng.choice("UCB") for _ in range(d)) for _ in range(6 if full else 4)]
         asp = ASPECTS if full or i % 2 == 0 else [rng.choice(ASPECTS)]
-        for c in _cases(tree, d, rng, False, descs, asp, scale=rng.choice([1, 1, 4])):
+        for c in _cases(tree, d, rng, False, descs, asp, scale=scale, hfmt=hfmt, dflt=dflt,
+                        cum=[rng.random() < 0.5 for _ in range(d)], variants=None if i % 2 else 2):
             yield c
 
 
@@ -128,13 +184,13 @@ def gen(seed, tier):
 # running the real code
 # ---------------------------------------------------------------------------------------
 
-def _build(tree, depth, scale):
-    """real Fiber objects; leaves are ints (scale 1) or floats value/scale"""
+def _build(tree, depth, scale, dflt=0):
+    """real Fiber objects; leaves (and the default) are ints (scale 1) or floats value/scale"""
     F = H.ft().Fiber
     if depth == 1:
         vals = [v if scale == 1 else v / scale for _, v in tree]
-        return F([c for c, _ in tree], vals, default=0)
-    return F([c for c, _ in tree], [_build(s, depth - 1, scale) for _, s in tree], default=0)
+        return F([c for c, _ in tree], vals, default=(dflt if scale == 1 else dflt / scale))
+    return F([c for c, _ in tree], [_build(s, depth - 1, scale, dflt) for _, s in tree])
 
 
 _BADVAL = 987654321
@@ -151,9 +207,24 @@ def _val(v, scale):
 
 
 class _StubCache(dict):
-    """the cache interface the format classes use (boltons LRU): get / [] / counters"""
+    """the cache interface the format classes use (boltons LRU with max_size=32 as in swoop_util):
+    get / [] / counters; bounded, because the format classes print the whole cache on every access"""
     miss_count = 0
     hit_count = 0
+    max_size = 32
+
+    def __setitem__(self, k, v):
+        if k in self:
+            dict.__delitem__(self, k)
+        dict.__setitem__(self, k, v)
+        while len(self) > self.max_size:
+            dict.__delitem__(self, next(iter(self)))
+
+
+class _Null(io.TextIOBase):
+    """sink for the codec's progress prints"""
+    def write(self, s):
+        return len(s)
 
 
 def _opt(v):
@@ -185,10 +256,10 @@ def _element(f, name, nxt_rank, leaf, h, scale):
     return [_opt(c), _opt(ph), res]
 
 
-def _scan(f, name, nxt_rank, leaf, scale):
-    """setupSlice(0), nextInSlice() until None"""
+def _scan(f, name, nxt_rank, leaf, scale, base=0):
+    """setupSlice(base), nextInSlice() until None"""
     rows = []
-    f.setupSlice(0)
+    f.setupSlice(base)
     for _ in range(10000):
         h = f.nextInSlice()
         if h is None:
@@ -228,7 +299,7 @@ class _WalkAbort(Exception):
     pass
 
 
-def _walk(ot, names, d, r, idx, pre, out, budget, scale):
+def _walk(ot, names, d, r, idx, pre, out, budget, scale, dflt):
     """depth-first walk of the encoded tensor through the handle interface only: the scan of a
     fiber stays open while the fibers of its elements are scanned"""
     f = ot[r][idx]
@@ -245,12 +316,12 @@ def _walk(ot, names, d, r, idx, pre, out, budget, scale):
             return
         c, ph, res = _element(f, name, nxt, leaf, h, scale)
         if leaf:
-            if res is None or res != 0:
+            if res is None or res != dflt:
                 out.append([pre + [c], res])
         elif res is None or not (0 <= res < len(nxt)):
             out.append([pre + [c, "dangling"], None])
         else:
-            _walk(ot, names, d, r + 1, res, pre + [c], out, budget, scale)
+            _walk(ot, names, d, r + 1, res, pre + [c], out, budget, scale, dflt)
 
 
 def run(case):
@@ -259,19 +330,33 @@ def run(case):
     d, tree, desc = case["d"], case["t"], tuple(case["fmts"])
     ids = [f"R{i}" for i in range(d)]
     scale = case.get("scale", 1)
-    fiber = _build(tree, d, scale)
+    dflt = case.get("dflt", 0)
+    fiber = _build(tree, d, scale, dflt)
     kw = {"shape": list(case["tshape"])} if case["declared"] else {}
+    if dflt:
+        kw["default"] = dflt if scale == 1 else dflt / scale
     t = ft.Tensor.fromFiber(rank_ids=ids, fiber=fiber, **kw)
+    for rid, h in zip(ids, case.get("hfmt") or ""):
+        if h == "U":
+            t.setFormat(rid, "U")
     if t.getShape() != case["tshape"]:
         raise RuntimeError(f"tensor shape {t.getShape()} differs from the generator's {case['tshape']}")
     side, impl = {}, {}
-    buf = io.StringIO()
+    buf = _Null()
+    asp = case["aspect"]
+    before = H.snapshot(t.getRoot()) if asp == "decode" else None
     try:
         with contextlib.redirect_stdout(buf):
-            codec = Codec(desc, [True] * d)
+            codec = Codec(desc, list(case.get("cum") or [True] * d))
             out = codec.get_output_dict(ids)
             ot = [[] for _ in range(d + 1)]
             codec.encode(-1, t.getRoot(), ids, out, ot, shape=case["ish"])
+            if asp == "decode":
+                # state left behind: the tensor is only read, and the codec object can be used again
+                side["tensor_unchanged"] = H.snapshot(t.getRoot()) == before
+                out2 = codec.get_output_dict(ids)
+                codec.encode(-1, t.getRoot(), ids, out2, [[] for _ in range(d + 1)], shape=case["ish"])
+                side["second_encode_same"] = out2 == out
     except Exception as e:
         case["impl"] = {"error": H.err_class(e)}
         case["implerr"] = H.err_class(e)
@@ -281,9 +366,9 @@ def run(case):
     impl["cs"] = [[int(x) for x in out["coords_" + i.lower()]] for i in ids]
     impl["ps"] = [[(_val(x, scale) if k == d - 1 else int(x)) for x in out["payloads_" + i.lower()]]
                   for k, i in enumerate(ids)]
-    asp = case["aspect"]
     cache = _StubCache()
     fibs = []
+    ext = case["ish"] or case["tshape"]
     for r, rank in enumerate(ot):
         # r = 0 is the artificial root wrapper, r = k + 1 the tensor's rank k
         leaf = r == d
@@ -313,6 +398,13 @@ def run(case):
                 if asp == "scan":
                     try:
                         o["scan"] = _scan(f, name, nxt, leaf, scale)
+                        if _scan(f, name, nxt, leaf, scale) != o["scan"]:
+                            side["rescan_same"] = False
+                        if r > 0:
+                            # slices that start at a coordinate b > 0 (inside the rank's extent)
+                            e = ext[r - 1]
+                            o["scanb"] = [[b, _scan(f, name, nxt, leaf, scale, base=b)]
+                                          for b in sorted({1, 2, e // 2, e}) if 1 <= b <= e]
                         if name == "U" and not leaf and r > 0:
                             ok = all(f.payloadToFiberHandle(ph) == res for _, ph, res in o["scan"] if ph is not None)
                             if not ok:
@@ -342,7 +434,7 @@ def run(case):
         rows = []
         with contextlib.redirect_stdout(buf):
             try:
-                _walk(ot, names, d, 1, 0, [], rows, [20000], scale)
+                _walk(ot, names, d, 1, 0, [], rows, [20000], scale, dflt)
             except _WalkAbort:
                 rows.append([["nonterminating"], None])
                 side["walk_terminates"] = False
@@ -350,12 +442,24 @@ def run(case):
                 rows.append([["error"], None])
                 side["walk_no_exception:" + H.err_class(e)] = False
         impl["walk"] = rows
-    impl["rootfib"] = fibs[0][0] if len(fibs[0]) == 1 else None
+    # the artificial root wrapper: one U fiber of shape 1 holding the top fiber; it stores the top
+    # fiber's occupancy (payloads_root) iff the top format is explicit
+    rf = fibs[0][0] if len(fibs[0]) == 1 else None
+    explicit = desc[0] in "CB"
+    ok = (rf is not None and rf["fmt"] == "U" and rf["shape"] == 1 and rf["kids"] == [0] and
+          rf["occs"] == ([0] if explicit else []) and len(impl["root"]) == (1 if explicit else 0) and
+          rf.get("size", len(impl["root"])) == len(impl["root"]) and rf.get("scan", [[0, 0, 0]]) == [[0, 0, 0]])
+    if not ok:
+        side["root_wrapper"] = False
+    # nothing mutable is shared: every fiber object and every array is its own list
+    lists = [l for rank in ot for f in rank for l in (f.coords, f.payloads, f.occupancies)] + list(out.values())
+    if len({id(l) for l in lists}) != len(lists) or len({id(f) for rank in ot for f in rank}) != sum(map(len, ot)):
+        side["no_shared_objects"] = False
+    impl["rootfib"] = rf
     impl["fibs"] = fibs[1:]
     case["impl"] = impl
     if side:
         case["side"] = side
-    buf.close()
     return case
 
 
